@@ -9,6 +9,7 @@ Tie: correspondence between the model's executable instance over IEEE binary64 /
 libm's cos is taken from the implementation as data and validated against math.cos (same glibc)
 with a 4-ulp tolerance on the cos value."""
 import json, math, os, struct
+from fractions import Fraction
 import framework as F
 import floatbase
 
@@ -211,6 +212,22 @@ def verdict(it, obs):
         for p, v in zip(by.get(100, []), by.get(101, [])):
             if not hann_ok(p, v):
                 problems.append(f"Hann window value at phase {b2f64(p)!r} = {b2f64(v)!r} outside the 4-ulp oracle interval")
+    if it["b"] >= 2:
+        # end-to-end reading of the property in floating point: the i-th sampled phase is frac(i/(b-1)) up to
+        # accumulated rounding (circular distance: the last phase may land just below 1 instead of on 0), and the
+        # Hann value is hann(i/(b-1)) up to 1e-12
+        b = it["b"]
+        for i, pb in enumerate(by.get(100, [])):
+            e = Fraction(i, b - 1) % 1
+            d = abs(Fraction(b2f64(pb)) - e)
+            if min(d, 1 - d) > Fraction(1, 10 ** 12):
+                problems.append(f"phase #{i} of a window of {b} frames = {b2f64(pb)!r}, exact arithmetic gives {float(e)!r}")
+            if it["wk"] == 0 and i < len(by.get(101, [])):
+                want = 0.5 * (1.0 - math.cos(2.0 * math.pi * float(e)))
+                if not abs(b2f64(by[101][i]) - want) <= 1e-12:
+                    problems.append(f"Hann window value #{i} of {b} = {b2f64(by[101][i])!r}, hann({i}/{b - 1}) = {want!r}")
+            if it["wk"] == 1 and i < len(by.get(101, [])) and b2f64(by[101][i]) != 1.0:
+                problems.append(f"Rectangle window value #{i} = {b2f64(by[101][i])!r}")
     if it["b"] >= 1 and it["h"] >= 1:
         L, b, h = len(it["ops"]), it["b"], it["h"]
         exp = expected_count(L, b, h)
